@@ -83,8 +83,14 @@ def run_schedule(cfg, chooser, gate_all=False):
         if cfg['present']:
             tok = uniq.next('init')
             v0 = make_value(kind, tok)
-            produced.append(tcanon(v0))
             shared.get_or_compute(KEY, lambda: v0)
+            if cfg['present'] == 'damaged':
+                # what an interrupted earlier writer left behind: the first half of an entry (never a value; to be recomputed, and `get` says NO_VALUE)
+                fp0 = shared.filepath(KEY)
+                data0 = fp0.read_bytes()
+                fp0.write_bytes(data0[:len(data0) // 2])
+            else:
+                produced.append(tcanon(v0))
         hist = sched_proc.run_schedule_processes(cfg, chooser, tmp / 'cache', KEY, gate_all=gate_all)
         hist['produced'] = produced + [json.loads(json.dumps(x)) for x in hist['produced']]
         for c in hist['calls']:
@@ -104,8 +110,14 @@ def run_schedule(cfg, chooser, gate_all=False):
         if cfg['present']:
             tok = uniq.next('init')
             v0 = make_value(kind, tok)
-            produced.append(tcanon(v0))
             shared.get_or_compute(KEY, lambda: v0)
+            if cfg['present'] == 'damaged':
+                # what an interrupted earlier writer left behind: the first half of an entry (never a value; to be recomputed, and `get` says NO_VALUE)
+                fp0 = shared.filepath(KEY)
+                data0 = fp0.read_bytes()
+                fp0.write_bytes(data0[:len(data0) // 2])
+            else:
+                produced.append(tcanon(v0))
         caches = [shared if cfg.get('same_object', True) else cls(tmp / 'cache') for _ in cfg['ops']]
         tc.FileLock = sched.GatedFileLock
         sched.CURRENT['ctl'] = ctl
@@ -205,7 +217,7 @@ def judge(hist, res: CaseResult):
         res.count('context_switch_schedules')
         res.nt(jhash([cfg, hist['choices']]))
     # complete-entry-stored times: initial, or end of a write
-    stored_from = 0 if cfg['present'] else None
+    stored_from = 0 if (cfg['present'] is True) else None
     for call in hist['calls']:
         i = call['caller']
         here = f'caller {i} ({call["op"]}) in schedule {hist["choices"]} of {cfg}'
@@ -233,7 +245,7 @@ def judge(hist, res: CaseResult):
             if call['op'] != 'get':
                 res.violate(f'{here}: get_or_compute returned NO_VALUE', witness=wit, facts={'tag': 'goc_no_value'})
                 return
-            stored_before = cfg['present'] or any(w[2] < first_step for w in writes) or bool([w for w in overl if w not in excusing])
+            stored_before = (cfg['present'] is True) or any(w[2] < first_step for w in writes) or bool([w for w in overl if w not in excusing])
             if stored_before and not excusing:
                 res.violate(f'{here}: get answered NO_VALUE although a complete entry was stored before it started and no write overlapped it', witness=wit,
                             facts={'tag': 'get_missed'})
@@ -252,13 +264,15 @@ def judge(hist, res: CaseResult):
             res.violate(f'{here}: forced call did not compute', witness=wit, facts={'tag': 'force_not_computed'})
             return
         if call['op'] == 'goc' and call['computed']:
-            stored_before = cfg['present'] or any(w[2] < first_step for w in writes) or bool([w for w in overl if w not in excusing])
+            stored_before = (cfg['present'] is True) or any(w[2] < first_step for w in writes) or bool([w for w in overl if w not in excusing])
             if stored_before and not excusing:
                 res.violate(f'{here}: unforced get_or_compute started when a complete entry was stored, no write overlapped it, yet it recomputed', witness=wit,
                             facts={'tag': 'needless_recompute'})
                 return
     fin = hist.get('final')
-    any_store = cfg['present'] or any(c['computed'] for c in hist['calls'] if c['op'] != 'fraise')
+    any_store = (cfg['present'] is True) or any(c['computed'] for c in hist['calls'] if c['op'] != 'fraise')
+    if isinstance(fin, str) and fin.startswith('UNREADABLE') and cfg['present'] == 'damaged' and not any(c['computed'] for c in hist['calls'] if c['op'] != 'fraise'):
+        return       # the damaged entry the callers found is still there: nobody had to write (readers only, or failing computations)
     if isinstance(fin, str) and fin.startswith('UNREADABLE'):
         res.violate(f'at quiescence the stored entry is unreadable ({fin}) after schedule {hist["choices"]} of {cfg}', witness=wit, facts={'tag': 'final_unreadable'})
         return
@@ -350,6 +364,8 @@ def run_case(case) -> CaseResult:
                 res.count('process_level_schedules')
             if cfg.get('spawned'):
                 res.count('schedules_of_independently_started_interpreters')
+            if cfg.get('present') == 'damaged':
+                res.count('schedules_over_a_damaged_entry')
             if res.violations:
                 break
         res.sample = {'cfg': cfg, 'mode': case['mode'], 'n': case['n']}
@@ -368,6 +384,9 @@ def cases(tier, seed):
     for other in ('get', 'goc', 'force'):
         for present in (True, False):
             yield {'mode': 'dfs', 'cfg': {'ops': ['fraise', other], 'present': present, 'same_object': False, 'cache': 'json'}, 'cap': 6000}
+    # a damaged entry (first half of a file left by an interrupted writer) met by readers and writers: all schedules of every pair
+    for a, b in itertools.combinations_with_replacement(OPS, 2):
+        yield {'mode': 'dfs', 'cfg': {'ops': [a, b], 'present': 'damaged', 'same_object': False, 'cache': 'json'}, 'cap': 1000 if tier == 'quick' else 20000}
     if tier == 'quick':
         # the pickle-based caches: readers overlapping a forced writer, all schedules
         for cache in ('pd', 'npy'):
